@@ -592,11 +592,11 @@ func isFreshBase(g *Graph, sel *ast.SelectorExpr) bool {
 
 // Access is one use of a guarded field with the verdict of the lock-set rule.
 type Access struct {
-	Ref    *Ref
-	Write  bool
-	OK     bool
-	Via    string // how it was discharged / why not
-	Chain  []string
+	Ref   *Ref
+	Write bool
+	OK    bool
+	Via   string // how it was discharged / why not
+	Chain []string
 }
 
 // CheckGuarded decides, for every use of field fld in product code, that mutex mu is held (exclusively
@@ -716,7 +716,7 @@ type ssaState struct {
 
 // Reacquire is a place where a mutex that is already held is locked again (directly or through a call).
 type Reacquire struct {
-	Site  *Site  // the call made while holding the lock (nil for a direct re-lock)
+	Site  *Site // the call made while holding the lock (nil for a direct re-lock)
 	Pos   token.Pos
 	Where string
 	Via   []string // callee chain down to the Lock/RLock
